@@ -800,6 +800,21 @@ func (e *SpecEnv) call(x *SExpr) *Val {
 				}
 			}
 			switch callee.Name {
+			case "store": // store(a, i, v): the array a updated at index i
+				a := e.eval(args[0])
+				if len(a.L) != 1 || !a.L[0].Sort.IsArray() {
+					e.fail(x, "store() of a non-array value")
+				}
+				return &Val{T: a.T, L: []*Term{Store(a.L[0], e.eval(args[1]).L[0], e.eval(args[2]).L[0])}}
+			case "count": // count(k, lo, hi, P): number of k in [lo, hi) with P(k)
+				if len(args) != 4 || args[0].Kind != "ident" {
+					e.fail(x, "count(k, lo, hi, P)")
+				}
+				lo := e.evalInt(args[1])
+				hi := e.evalInt(args[2])
+				kb := Bound(freshName("q."+args[0].Name), SInt)
+				body := e.with(map[string]*Val{args[0].Name: intVal(kb)}).evalBool(args[3])
+				return intVal(countTerm(kb, body, lo, hi))
 			case "len":
 				v := e.eval(args[0])
 				switch {
